@@ -1,6 +1,10 @@
 """C11 Close and reopen preserves everything; clear empties everything."""
-from ..core import Prop, HarnessError, _innermost_repo_frame
-from ..ops import Index, Config
+from hypothesis import strategies as st
+
+from ..core import Prop, Case, HarnessError, _innermost_repo_frame, run_given
+from ..ops import Index, Config, op_to_json, op_from_json
+from ..lru import vocab as vocab_strategy
+from ..gen import config_strategy, op_strategy
 from ..codec import B
 from .. import observe as ob
 from .c15 import compare_outcomes
@@ -92,6 +96,84 @@ class C11(Prop):
 
     def nontrivial(self, case):
         return "reopen-with-writes-before-and-after" in case.flags
+
+    # -- "close/reopen inserted at EVERY position of it": exhaustive over positions for drawn histories -------------------
+    EXHAUSTIVE_KEYS = ("reopen_positions",)
+
+    def extra_checks(self, ctx, tier, seed, shard, nshards):
+        n_hist = 3 if tier == "quick" else 40
+
+        def one(data):
+            v = data.draw(vocab_strategy(modes=self.MODES, long_bias=0.3))
+            cfg = data.draw(config_strategy(v))
+            w = dict(self.weights())
+            w["reopen"] = 0
+            w["clear"] = 0
+            # draw the history once, against a scratch index
+            base = _PlainCase(self, ctx, cfg, v)
+            try:
+                for _ in range(data.draw(st.integers(3, 10 if tier == "quick" else 16))):
+                    base.step(data.draw(op_strategy(v, base.led, w, cfg.backend, base.ops)))
+                ops = [op_to_json(o) for o in base.ops]
+                lrus = sorted(base.led.closure)
+                ref = base.call("observation", ob.snapshot, base.t, lrus)
+                ref_raw = base.idx.raw()
+            finally:
+                base.abort()
+            # the same history with one (and with two consecutive) close/reopen at every position
+            for pos in range(len(ops) + 1):
+                for times in (1, 2):
+                    c = _PlainCase(self, ctx, Config.from_json(cfg.to_json()), None)
+                    try:
+                        for i, j in enumerate(ops):
+                            if i == pos:
+                                for _ in range(times):
+                                    c.step(("reopen",))
+                            c.step(op_from_json(j))
+                        if pos == len(ops):
+                            for _ in range(times):
+                                c.step(("reopen",))
+                        got = c.call("observation", ob.snapshot, c.t, lrus)
+                        d = ob.diff_snapshots(ref, got)
+                        if d:
+                            ctx.fail("reopen-at-position", "history of %d requests with %d close/reopen inserted before request %d answers differently from the never-closed run: %s"
+                                     % (len(ops), times, pos, d), c)
+                        if c.idx.raw() != ref_raw:
+                            ctx.event("byte_diff_without_observable_diff")
+                        ctx.extra["reopen_positions"] += 1
+                        ctx.record_case(c.ops, ["reopen-at-every-position"], 0 < pos < len(ops))
+                    finally:
+                        c.abort()
+
+        run_given(seed * 1000 + 400 + shard, n_hist, st.data(), one)
+
+
+class _PlainCase(Case):
+    """a case without the twin (used by the every-position enumeration)"""
+
+    def __init__(self, prop, ctx, config, vocab):
+        self._plain = True
+        Case.__init__(self, _NoTwin(prop), ctx, config, vocab)
+
+
+class _NoTwin(object):
+    def __init__(self, prop):
+        self.prop = prop
+
+    def begin(self, case):
+        pass
+
+    def before_op(self, case, op):
+        return None
+
+    def after_op(self, case, op, out, pre):
+        pass
+
+    def error_ok(self, case, op, out):
+        return False
+
+    def end(self, case):
+        pass
 
 
 PROP = C11()
